@@ -34,9 +34,12 @@ pub fn install_panic_hook() {
 /// Runs `f`, converting a panic into `Err("file:line: message")`.
 pub fn guarded<T>(f: impl FnOnce() -> T) -> Result<T, String> {
     install_panic_hook();
+    watchdog::start();
+    let previous = watchdog::call_begins();
     CAPTURING.with(|c| *c.borrow_mut() = true);
     let result = catch_unwind(AssertUnwindSafe(f));
     CAPTURING.with(|c| *c.borrow_mut() = false);
+    watchdog::call_ends(previous);
     match result {
         Ok(value) => Ok(value),
         Err(_) => Err(LAST_PANIC.with(|p| p.borrow_mut().take()).unwrap_or_else(|| "?: <panic>".into())),
@@ -126,6 +129,8 @@ pub struct Report {
 
 impl Report {
     pub fn new(property: &str, tier: Tier, level: &'static str) -> Report {
+        watchdog::set_context(property, tier.name(), Value::Null);
+        watchdog::set_level(level);
         Report { property: property.to_string(), tier, level, started_ns: crate::vclock::real_ns(), coverage: BTreeMap::new(), assumptions: Vec::new(), violations: Vec::new(), known_hit: BTreeSet::new(), machinery_errors: Vec::new() }
     }
 
@@ -212,12 +217,30 @@ pub mod watchdog {
     struct Entry { start_ns: u64, describe: Describe }
     static TABLE: OnceLock<Mutex<HashMap<ThreadId, Entry>>> = OnceLock::new();
     static CONTEXT: OnceLock<Mutex<(String, String, Value)>> = OnceLock::new();
+    static LEVEL: OnceLock<Mutex<String>> = OnceLock::new();
+    pub fn set_level(level: &str) { *LEVEL.get_or_init(|| Mutex::new(String::new())).lock().unwrap() = level.to_string(); }
     fn table() -> &'static Mutex<HashMap<ThreadId, Entry>> { TABLE.get_or_init(|| Mutex::new(HashMap::new())) }
 
     /// (property being checked, tier, locator of the configuration being explored) for the artefact
     pub fn set_context(property: &str, tier: &str, locator: Value) {
         let c = CONTEXT.get_or_init(|| Mutex::new((String::new(), String::new(), Value::Null)));
         *c.lock().unwrap() = (property.to_string(), tier.to_string(), locator);
+    }
+
+    // every call into the library goes through `guarded`: one atomic slot per thread holds the start time of the call in progress
+    static SLOTS: OnceLock<Mutex<Vec<std::sync::Arc<std::sync::atomic::AtomicU64>>>> = OnceLock::new();
+    thread_local! {
+        static SLOT: std::sync::Arc<std::sync::atomic::AtomicU64> = {
+            let slot = std::sync::Arc::new(std::sync::atomic::AtomicU64::new(0));
+            SLOTS.get_or_init(|| Mutex::new(Vec::new())).lock().unwrap().push(slot.clone());
+            slot
+        };
+    }
+    pub fn call_begins() -> u64 { SLOT.with(|s| s.swap(crate::vclock::real_ns().max(1), std::sync::atomic::Ordering::Relaxed)) }
+    pub fn call_ends(previous: u64) { SLOT.with(|s| s.store(previous, std::sync::atomic::Ordering::Relaxed)); }
+    fn stuck_call(now: u64) -> bool {
+        let Some(slots) = SLOTS.get() else { return false; };
+        slots.lock().unwrap().iter().any(|s| { let v = s.load(std::sync::atomic::Ordering::Relaxed); v != 0 && now.saturating_sub(v) as f64 / 1e9 > LIMIT_S })
     }
 
     pub struct Guard;
@@ -236,15 +259,16 @@ pub mod watchdog {
                 crate::vclock::set(None);
                 let now = crate::vclock::real_ns();
                 let stuck: Option<Value> = { let t = table().lock().unwrap(); t.values().find(|e| now.saturating_sub(e.start_ns) as f64 / 1e9 > LIMIT_S).map(|e| (e.describe)()) };
+                let stuck = match stuck { Some(w) => Some(w), None if stuck_call(now) => Some(json!({"note": "a call into the library made by this check has not returned; no finer context is recorded for this kind of check"})), None => None };
                 if let Some(what) = stuck {
                     let (property, tier, locator) = CONTEXT.get().map(|c| c.lock().unwrap().clone()).unwrap_or_default();
-                    let signature = "engine call does not return";
+                    let signature = if what.get("history").is_some() { "engine call does not return" } else { "library call does not return" };
                     let mut body = json!({"kind": "engine-history", "property": "C11", "signature": signature, "detail": format!("one execution has been running for more than {} s of real time: an entry point of the library does not return (replaying this artefact hangs too)", LIMIT_S), "then_fair_closure": true, "execution": what, "tier": tier});
                     if let (Some(b), Some(l)) = (body.as_object_mut(), locator.as_object()) { for (k, v) in l { b.insert(k.clone(), v.clone()); } }
                     if let Some(h) = body["execution"]["history"].clone().as_array() { body["history"] = json!(h); }
                     let path = write_replay("C11", signature, &body);
-                    let evidence = json!({"property_id": property, "tier": if tier == "thorough" { "thorough" } else { "quick" }, "seed": 0, "level": "model_checking", "wall_s": 0.0, "violations": 1,
-                        "coverage": {"states": 1, "transitions": 1, "traces_validated_against_impl": 1, "samples": [body["execution"].clone()], "exhaustive": false, "rule": "run aborted by the hang watchdog: only the hanging execution is reported"}});
+                    let evidence = json!({"property_id": property, "tier": if tier == "thorough" { "thorough" } else { "quick" }, "seed": 0, "level": LEVEL.get().map(|l| l.lock().unwrap().clone()).filter(|l| !l.is_empty()).unwrap_or_else(|| "model_checking".to_string()), "wall_s": 0.0, "violations": 1,
+                        "coverage": {"states": 1, "transitions": 1, "traces_validated_against_impl": 1, "evaluations": 1, "distinct_nontrivial": 1, "samples": [body["execution"].clone()], "exhaustive": false, "rule": "run aborted by the hang watchdog: only the hanging execution is reported"}});
                     let _ = std::fs::write(format!("{}/evidence/{}.json", verif_root(), property), serde_json::to_string_pretty(&evidence).unwrap() + "\n");
                     println!("VIOLATION property=C11 replay={}", path);
                     println!("  signature: {}", signature);
